@@ -12,9 +12,9 @@ from __future__ import annotations
 import ast
 from typing import Dict, FrozenSet, List, Optional, Set, Tuple
 
-from ..model import Program, AnalysisError, dotted, FuncInfo
+from ..model import Program, AnalysisError, dotted, FuncInfo, walk_local
 from ..report import RuleResult
-from ..astutil import src, site, call_name
+from ..astutil import src, site, call_name, calls_in
 
 EXPLANATION = (
     "Abstract interpretation of SubclassJSONSerializer.from_json over a finite kind domain: the tag may be "
@@ -587,5 +587,57 @@ def js_registry(prog: Program) -> RuleResult:
     return r
 
 
+# calls that cannot re-enter the reader (they run no user code that deserialises a nested document)
+_NO_REENTRY = STR_METHODS | {"import_module", "getattr", "isinstance", "issubclass", "get", "get_deserializer", "get_serializer", "JSONSerializableTypeRegistry", "type", "len", "str"}
+
+
+def js_relabel(prog: Program) -> RuleResult:
+    """A handler in the reader that converts a builtin exception into one of the library's errors wraps a step that may deserialise a nested
+    document (a class's own _from_json, a registered deserializer). The library's error for the *nested* document travels through that
+    handler: it must not be an instance of what the handler catches, or it is caught and replaced by an error about the *outer* class -
+    the failure is still 'loud', but it names the wrong class and hides which tag could not be resolved."""
+    r = RuleResult("JS-RELABEL", "no library error is an instance of a builtin exception that a converting handler around nested deserialisation catches", floor=1)
+    ser = prog.cls("json_serializer.SubclassJSONSerializer")
+    f = prog.lookup(ser.qual, "from_json")
+    base = prog.cls("json_serializer.JSONSerializationError")
+    errors = [base] + list(prog.subclasses(base.qual))
+
+    def builtin_bases(c) -> Set[str]:
+        out = set()
+        for q in prog.mro(c.qual) if hasattr(prog, "mro") else [c.qual]:
+            k = prog.classes.get(q)
+            if k is None:
+                continue
+            for b in k.node.bases:
+                name = dotted(b) or ""
+                if name.split(".")[-1] in BUILTIN_EXC_PARENTS or name.split(".")[-1] in ("Exception", "BaseException"):
+                    out.add(name.split(".")[-1])
+        return out
+
+    n = 0
+    for t in [x for x in walk_local(f.node) if isinstance(x, ast.Try)]:
+        reenter = [c for b in t.body for c in calls_in(b) if (call_name(c) or "") not in _NO_REENTRY]
+        if not reenter:
+            continue
+        for h in t.handlers:
+            converts = any(isinstance(x, ast.Raise) and x.exc is not None for b in h.body for x in ast.walk(b))
+            if not converts or h.type is None:
+                continue
+            caught = [dotted(e).split(".")[-1] for e in (h.type.elts if isinstance(h.type, ast.Tuple) else [h.type]) if dotted(e)]
+            n += 1
+            hit = None
+            for c in errors:
+                for bb in builtin_bases(c):
+                    if any(exc_covers(hc, bb) for hc in caught):
+                        hit = hit or (c, bb)
+            r.check(hit is None, f"SubclassJSONSerializer.from_json#except-{'-'.join(caught)}-around-{call_name(reenter[0])}", site(f, h), src(h.type),
+                    "none of the library's errors is caught by this handler",
+                    f"{hit[0].name if hit else ''} is also a {hit[1] if hit else ''}: raised for a nested document inside {src(reenter[0])[:50]}, it is caught here and replaced by an error about "
+                    "the enclosing class - the message names a class that can be deserialised and the unresolvable tag is lost")
+    if n == 0:
+        r.ok("SubclassJSONSerializer.from_json#no-converting-handler-around-nested-calls", site(f), "", "no handler converts exceptions of a step that can re-enter the reader")
+    return r
+
+
 def run(prog: Program, tier: str) -> List[RuleResult]:
-    return [js_escape(prog), js_registry(prog)]
+    return [js_escape(prog), js_registry(prog), js_relabel(prog)]
